@@ -36,6 +36,8 @@ def run(ctx):
             core.diff_component(ctx, comp, ["gen", "--seed", ctx.seed, "--cases", 4000 if quick else 50000, "--len", 40 if quick else 60, "reloc"], classify,
                                 label=f"{comp}.reloc")
             core.diff_component(ctx, comp, ["gen", "--exhaustive", 3 if quick else 4, "reloc"], classify, label=f"{comp}.reloc-exhaustive", shrink=False)
+        # bit set, counting bit set, used-chunk list in a block that moves at arbitrary points
+        core.diff_component(ctx, "shmsets", ["gen", "--seed", ctx.seed, "--cases", 4000 if quick else 50000, "--len", 30 if quick else 50], classify, label="shmsets.reloc")
         # lock-free structures: every logical thread works through its own mapping of one memory object
         # (memfd mapped once per thread); an access through a foreign mapping is recorded and breaks the trace
         for comp in ["spsc", "overflow", "uis", "ruis", "container"]:
@@ -49,5 +51,5 @@ def run(ctx):
              "mapped per thread) — traces are compared with the L2 models by block offset, any access through another thread's mapping is flagged. distinct = distinct output vectors / interleavings",
         extra_assumptions=["element types are the user's (trait ZeroCopySend): `payload` fields are outside the table",
                            "the pool allocator keeps its creator's base address as a NUMBER (whitelisted pair of fields, see DESIGN.md); its offsets are compared under relocation by the C15 runs",
-                           "bit sets and the used-chunk list are covered by the field table and, dynamically, through the event (C05) and pub-sub (C01) runs only, not by own relocation runs",
+                           "bit set, counting bit set and used-chunk list are relocated in sequential histories only (component shmsets); their concurrent use is traced in C05 without alias mappings",
                            "the translator's parser (regular expressions over struct definitions, fails closed on unknown types) is trusted"])
